@@ -255,7 +255,67 @@ func PanicSites(p *Prog, fn *ssa.Function) []PanicSite {
 					add(x, "slice", shortVal(x.X)+"[i:min(i+k,len)]", true, "bounds clamped to len")
 					continue
 				}
+				// s[len(p):] after strings.HasPrefix(s, p)
+				if x.High == nil && x.Max == nil {
+					if lc, isCall := x.Low.(*ssa.Call); isCall && CalleeName(lc.Common()) == "builtin:len" {
+						pfx := Strip(lc.Call.Args[0])
+						sv := Strip(x.X)
+						g := Guard{Name: "HasPrefix(s, p)", Match: func(cond ssa.Value) (int, bool) {
+							hc, ok := cond.(*ssa.Call)
+							if ok && CalleeName(hc.Common()) == "strings.HasPrefix" && Strip(hc.Call.Args[0]) == sv && Strip(hc.Call.Args[1]) == pfx {
+								return 0, true
+							}
+							return 0, false
+						}}
+						res := CutReach(p, fn, g, b)
+						if !res.Reachable && len(res.Instances) > 0 {
+							add(x, "slice", shortVal(x.X)+"[len(prefix):]", true, "after strings.HasPrefix on the same operands "+res.Instances[0])
+							continue
+						}
+					}
+					// s[strings.Index(s, sep)+k:] with 0 <= k <= len(sep), after the index was tested non-negative
+					if ic, k, ok := indexPlusConst(x.Low); ok && Strip(ic.Call.Args[0]) == Strip(x.X) {
+						if sep, isC := ConstString(ic.Call.Args[1]); isC && k >= 0 && k <= int64(len(sep)) {
+							g := Guard{Name: "Index(s, sep) >= 0", Match: func(cond ssa.Value) (int, bool) {
+								bo, ok := cond.(*ssa.BinOp)
+								if !ok || bo.X != ssa.Value(ic) {
+									return 0, false
+								}
+								kk, isK := ConstInt(bo.Y)
+								if !isK {
+									return 0, false
+								}
+								switch {
+								case bo.Op == token.LSS && kk == 0, bo.Op == token.EQL && kk == -1, bo.Op == token.LEQ && kk == -1:
+									return 1, true // found on the false edge
+								case bo.Op == token.GEQ && kk == 0, bo.Op == token.NEQ && kk == -1, bo.Op == token.GTR && kk == -1:
+									return 0, true
+								}
+								return 0, false
+							}}
+							res := CutReach(p, fn, g, b)
+							if !res.Reachable && len(res.Instances) > 0 {
+								add(x, "slice", shortVal(x.X)+"[Index(s,sep)+k:]", true, "index tested non-negative "+res.Instances[0])
+								continue
+							}
+						}
+					}
+				}
 				add(x, "slice", shortVal(x.X)+"[lo:hi]", false, "variable slice bounds not recognised as clamped")
+			case *ssa.FieldAddr:
+				// dereference of a pointer taken out of a map: a missing key yields nil
+				if src := mapValueSource(x.X); src != nil {
+					base := x.X
+					g := NilTest("map value", func(pp Path) bool { return pp.Root == base && len(pp.Fields) == 0 }, false)
+					gOk := lookupOkGuard(src)
+					res := CutReach(p, fn, AnyOf("non-nil map value or key present", g, gOk), b)
+					desc := "field of map value " + shortVal(src.X) + "[...]"
+					if !res.Reachable && len(res.Instances) > 0 {
+						add(x, "nilmapvalue", desc, true, "dominating nil / presence test "+res.Instances[0])
+					} else {
+						add(x, "nilmapvalue", desc, false, "a missing key yields a nil pointer that is dereferenced without a nil test on that value")
+					}
+				}
 			case *ssa.TypeAssert:
 				if x.CommaOk {
 					add(x, "typeassert", fmt.Sprintf("%s.(%s),ok", shortVal(x.X), types.TypeString(x.AssertedType, nil)), true, "comma-ok form")
@@ -378,3 +438,71 @@ func ConstSliceNeeds(fn *ssa.Function, pi int) map[string]int64 {
 	}
 	return out
 }
+
+
+// mapValueSource: v is (or, through phis, may be) the pointer-typed result of a
+// map lookup; returns one such lookup.
+func mapValueSource(v ssa.Value) *ssa.Lookup {
+	if _, isPtr := v.Type().Underlying().(*types.Pointer); !isPtr {
+		return nil
+	}
+	seen := map[ssa.Value]bool{}
+	var walk func(x ssa.Value) *ssa.Lookup
+	walk = func(x ssa.Value) *ssa.Lookup {
+		if seen[x] {
+			return nil
+		}
+		seen[x] = true
+		switch y := x.(type) {
+		case *ssa.Lookup:
+			if _, isMap := y.X.Type().Underlying().(*types.Map); isMap && !y.CommaOk {
+				return y
+			}
+		case *ssa.Extract:
+			if lk, ok := y.Tuple.(*ssa.Lookup); ok && y.Index == 0 {
+				if _, isMap := lk.X.Type().Underlying().(*types.Map); isMap {
+					return lk
+				}
+			}
+		case *ssa.Phi:
+			for _, e := range y.Edges {
+				if lk := walk(e); lk != nil {
+					return lk
+				}
+			}
+		}
+		return nil
+	}
+	return walk(v)
+}
+
+// lookupOkGuard: the comma-ok result of that lookup is true.
+func lookupOkGuard(lk *ssa.Lookup) Guard {
+	return Guard{Name: "key present", Match: func(cond ssa.Value) (int, bool) {
+		ex, ok := cond.(*ssa.Extract)
+		if ok && ex.Tuple == ssa.Value(lk) && ex.Index == 1 {
+			return 0, true
+		}
+		return 0, false
+	}}
+}
+
+
+// indexPlusConst: v is strings.Index(s, sep) or that plus a constant.
+func indexPlusConst(v ssa.Value) (*ssa.Call, int64, bool) {
+	if bo, ok := v.(*ssa.BinOp); ok && bo.Op == token.ADD {
+		if k, isK := ConstInt(bo.Y); isK {
+			if c, ok := bo.X.(*ssa.Call); ok && CalleeName(c.Common()) == "strings.Index" {
+				return c, k, true
+			}
+		}
+		return nil, 0, false
+	}
+	if c, ok := v.(*ssa.Call); ok && CalleeName(c.Common()) == "strings.Index" {
+		return c, 0, true
+	}
+	return nil, 0, false
+}
+
+// IndexPlusConst is exported for rules that recognise the same idiom.
+func IndexPlusConst(v ssa.Value) (*ssa.Call, int64, bool) { return indexPlusConst(v) }
